@@ -37,6 +37,8 @@ type Ctx struct {
 	extra       map[string]interface{}
 	tlcRuns     []map[string]interface{}
 
+	kept []*semCase // cases kept for the trace-validation pass
+
 	violations []violation
 	knownHit   map[string]string // finding id -> what
 	findings   *findingsFile
